@@ -16,7 +16,9 @@ CFG = {
             "(state root, receipts incl. logs/status/cumulative gas, gas used, full state content) compared with the builder's; every applicable "
             "single-field corruption of the six commitments and of body elements delivered alone / after a valid prefix / before a valid child and "
             "required to be refused with head, database and state untouched; blocks assembled by worker.commitNewWork and by a by-hand "
-            "ApplyTransaction+Finalize builder imported by another node; a known block above the head re-sent with a tampered body. Model cases: "
+            "ApplyTransaction+Finalize builder imported by another node; a known block above the head re-sent with a tampered body; blocks of 129..260 transactions with body corruptions at the RLP-key boundary "
+            "indices incl. execution-equivalent replacements; types.DeriveSha vs an independent trie for every list length 0..300 plus single-element "
+            "sensitivity; two forks with different code at one address observed through EXTCODESIZE/BALANCE/EXTCODECOPY, delivered A, B, A->B, B->A, with restarts. Model cases: "
             "every delivered block as an `imp` line (model importBlock on recomputed component values, own Keccak bloom) and dirty sets dumped "
             "before StateDB.Finalise as `fin` lines. Non-trivial = distinct case inputs.",
     "tie": {"StateDB.Finalise / stateObject.updateTrie": "corr (Go vs Model.BlockImport.finalise on dumped dirty sets, two iteration orders)",
